@@ -181,7 +181,7 @@ def preCreate (now : Int) (c : Coll) (ix : Index) : R Coll :=
 theorem go_eq (now : Int) (c : Coll) (ix : Index) :
     createIndexColl.go now c ix =
       match preCreate now c ix with
-      | .error e => (c, .error e)
+      | .error e => (refusedCreate now c ix, .error e)
       | .ok c1 =>
         (match ix.ttl with
          | some _ => ({ c1 with indexes := putIx ix c1.indexes, ttlIndexes := putIx ix c1.ttlIndexes,
@@ -230,7 +230,14 @@ theorem uniqS_go (now : Int) (c : Coll) (ix : Index) (hU : UniqS c) :
     UniqS (createIndexColl.go now c ix).1 := by
   rw [go_eq]
   cases hpre : preCreate now c ix with
-  | error e => exact hU
+  | error e =>
+    simp only []
+    unfold refusedCreate
+    split
+    · split
+      · rename_i c1 h; exact hU.sub (sub_expire h)
+      · exact hU
+    · exact hU
   | ok c1 =>
     obtain ⟨hs, hp⟩ := preCreate_ok hpre
     have hU1 := hU.sub hs
